@@ -52,6 +52,16 @@ let pbasis (b : coq_Q Obj.basis) = pnat b.Obj.b_order; pnat b.Obj.b_per1; pqlist
 let pobj (o : coq_Q Obj.obj) =
   plist pbasis o.Obj.o_bases; pnat o.Obj.o_dim; pbool o.Obj.o_rat; plist pqlist o.Obj.o_cps
 
+let rec rprog () : coq_Q StateCtx.prog =
+  match next () with
+  | "A" -> let k = rnat () in let v = rq () in StateCtx.Assign (k, v)
+  | "W" -> let kvs = rlist (fun () -> let k = rnat () in let v = rq () in (k, v)) in let b = rprog () in StateCtx.With (kvs, b)
+  | "S" -> let p = rprog () in let q = rprog () in StateCtx.Seq (p, q)
+  | "R" -> StateCtx.Raise
+  | "K" -> StateCtx.Skip
+  | "C" -> let i = rnat () in StateCtx.Call i
+  | t -> failwith ("bad prog token " ^ t)
+
 let dispatch name =
   match name with
   | "basis_evaluate" ->
@@ -122,6 +132,15 @@ let dispatch name =
   | "obj_project" -> let o = robj () in let keep = rlist rbool in pobj (Exec.q_obj_project o keep)
   | "obj_set_dimension" -> let o = robj () in let d = rnat () in pobj (Exec.q_obj_set_dimension o d)
   | "obj_force_rational" -> let o = robj () in pobj (Exec.q_obj_force_rational o)
+  | "basis_continuity" ->
+    let tol = rq () in let b = rbasis () in let xs = rqlist () in
+    plist (fun x -> pres (popt (fun z -> out (Z.to_string z))) (Exec.q_basis_continuity tol b x)) xs
+  | "vd_insert_all" ->
+    let rtol = rq () in let atol = rq () in let pts = rlist rqlist in
+    plist pnat (Exec.q_vd_insert_all rtol atol [] pts)
+  | "state_exec" ->
+    let init = rqlist () in let p = rprog () in
+    let (vals, ok) = Exec.q_state_exec p init in pqlist vals; pbool ok
   | _ -> out ("UNKNOWN " ^ name)
 
 let () =
